@@ -452,6 +452,11 @@ func (gsr *GoStructRegistryType) GetOrCreatePointerType(pointedToType *Registere
 }
 
 func (gsr *GoStructRegistryType) GetOrCreateSliceType(rt *RegisteredType) *RegisteredType {
+	if rt == nil || rt.TypeCache == nil {
+		// element types without a Go type behind them (e.g. plain
+		// hashes) have no slice type; reflect.SliceOf(nil) would panic.
+		return nil
+	}
 	//sliceName := "sliceOf" + rt.RegisteredName
 	sliceName := "[]" + rt.RegisteredName
 	sliceRt := gsr.Lookup(sliceName)
